@@ -12,19 +12,24 @@ import (
 func CompileToGetDecoder(typ *runtime.Type) (Decoder, error) {
 	initDecoder()
 	typeptr := uintptr(unsafe.Pointer(typ))
+	verifCacheGate("lookup", typeptr)
 	if typeptr > typeAddr.MaxTypeAddr {
 		return compileToGetDecoderSlowPath(typeptr, typ)
 	}
 
 	index := (typeptr - typeAddr.BaseTypeAddr) >> typeAddr.AddrShift
 	if dec := cachedDecoder[index]; dec != nil {
+		verifCacheReturn("fast-hit", typeptr, index, dec)
 		return dec, nil
 	}
 
+	verifCacheGate("miss", typeptr)
 	dec, err := compileHead(typ, map[uintptr]Decoder{})
 	if err != nil {
 		return nil, err
 	}
+	verifCacheGate("publish", typeptr)
 	cachedDecoder[index] = dec
+	verifCacheReturn("fast-compiled", typeptr, index, dec)
 	return dec, nil
 }
